@@ -271,9 +271,11 @@ func (e *env) judge(p *pristine, a artefact, o obs) {
 		if o.err != nil {
 			e.run.Add("rejected", 1)
 			if len(o.dbLog) > 0 { // (i) no partial effects
+				// with VerifyMetrics the (known) cause is that metrics are only compared after loading; any failure after
+				// writes without it means the input was not fully verified first - a different defect, a different class
 				class := "load-error-after-writes:" + t
-				if a.metrics {
-					class += ":verify-metrics"
+				if !a.metrics {
+					class += ":input-not-verified-before-writing"
 				}
 				e.report(class, a, fmt.Sprintf("%s, after %d write calls to the target database (first: %+v)", short(o.err), len(o.dbLog), o.dbLog[0]))
 			}
